@@ -28,7 +28,8 @@ from kv import coqio as cq, fakeapi as fa, framework as fw
 from kv.props import c08_model as m
 
 RULE_CARRY = ('carry layer: scripts of cycles on one object, bounded-exhaustive: length <= 3 over {ok, conflict(422), 503 on merge, 503 on JSON, '
-              'JSON applied + response lost, gone(404), deleted event} x {no new fn, one fresh fn appended}; throttled scripts: a conflict '
+              'JSON applied + response lost, gone(404), deleted event} x {no new fn, one fresh fn appended}; "ensure" scripts: an ensure-label fn (a no-op on the known body) '
+              'appended next to an effective one while the label is removed before the JSON-patch (422), after {nothing, an accepted, a conflicting} ensure cycle and followed by <= 2 cycles; throttled scripts: a conflict '
               'carrying a fn, then <= 3 cycles over {ok, 503 on JSON, 503 on merge} x {next event after / during the throttling}; every script '
               'is followed by two undisturbed cycles while the object exists; random longer scripts in thorough; non-trivial iff the script '
               'contains a conflict followed by a cycle that does not apply')
@@ -48,6 +49,25 @@ def mk_fn(k: int) -> Any:
     return fn
 
 
+ENSURE_BASE = 1000      # identities of the 'ensure' transformations (Model/Carry.v cy_untracked)
+
+
+def mk_ensure(k: int) -> Any:
+    """'ensure'-style: keep the label guard=yes in place; a no-op on every body which has it (as the initial object does)."""
+    def fn(body: dict) -> None:
+        body.setdefault('metadata', {}).setdefault('labels', {}).setdefault('guard', 'yes')
+    fn.__name__ = f'ensure_{k}'
+    return fn
+
+
+class CarrySession(m.ScriptedSession):
+    def foreign(self, how: str) -> None:
+        if how == 'unguard':          # somebody removes exactly what the 'ensure' transformation keeps in place
+            self.api.edit(self.kind, m.NS, m.NAME, lambda b: (b['metadata'].get('labels') or {}).pop('guard', None), actor='foreign')
+        else:
+            super().foreign(how)
+
+
 class World:
     def __init__(self, env: m.Env, throttled: bool) -> None:
         import kopf
@@ -57,13 +77,14 @@ class World:
         self.env, self.throttled = env, throttled
         self.kind = fa.Kind(m.GROUP, m.VERSION, 'KopfExample', m.PLURAL, status_subresource=False)
         self.api = fa.FakeAPI([self.kind])
-        self.last_doc = self.api.create(self.kind, m.NS, m.NAME, {'spec': {'owners': []}, 'metadata': {'labels': {'app': 'demo'}}})
+        self.last_doc = self.api.create(self.kind, m.NS, m.NAME, {'spec': {'owners': []}, 'metadata': {'labels': {'app': 'demo', 'guard': 'yes'}}})
         self.reg = registries.OperatorRegistry()
         self.memories = inventory.ResourceMemories()
         self.indexers = indexing.OperatorIndexers()
         self.fns: dict[int, Any] = {}
         self.ids: dict[int, int] = {}          # id(function object) -> number
         self.next_id = 1
+        self.next_ensure = ENSURE_BASE
         self.cycle_no = 0
         self.plan_new: list[int] = []
         self.handler_ran = False
@@ -86,6 +107,10 @@ class World:
         if mem is None or mem.remaining_patch is None:
             return []
         return [self.ids.get(id(f), 4999) for f in mem.remaining_patch.fns]
+
+    def guarded(self) -> bool | None:
+        obj = self.api.get(self.kind, m.NS, m.NAME)
+        return None if obj is None else (obj.get('metadata', {}).get('labels') or {}).get('guard') == 'yes'
 
     def effects(self) -> list[int] | None:
         obj = self.api.get(self.kind, m.NS, m.NAME)
@@ -110,10 +135,16 @@ class World:
         ev_type = 'MODIFIED' if obj is not None else 'DELETED'
         raw = {'type': ev_type, 'object': copy.deepcopy(obj if obj is not None else self.last_doc)}
         fault = {'e503m': (0, '503'), 'e503j': (1, '503'), 'lost': (1, 'lost')}.get(envk)
-        slip = {'conflict': (1, 'edit'), 'gone': (0, 'delete')}.get(envk)
-        sess = m.ScriptedSession(api, kind, fault, slip)
+        slip = {'conflict': (1, 'edit'), 'gone': (0, 'delete'), 'undo': (1, 'unguard')}.get(envk)
+        sess = CarrySession(api, kind, fault, slip)
         m.set_vault(sess)
         self.plan_new = []
+        if step.get('ensure'):            # appended first: a no-op next to the effective ones
+            k = self.next_ensure
+            self.next_ensure += 1
+            self.fns[k] = mk_ensure(k)
+            self.ids[id(self.fns[k])] = k
+            self.plan_new.append(k)
         for _ in range(step.get('new', 0)):
             k = self.next_id
             self.next_id += 1
@@ -152,7 +183,7 @@ class World:
         c = {'step': step, 'event': ev_type, 'outcome': outcome, 'new': new, 'ran': self.handler_ran, 'mem': self.carried(),
              'effects': self.effects(), 'statuses': [[x.kind, 'json' if x.ctype == m.CT_JSON else 'merge', x.status, x.injected, x.slipped] for x in log],
              'raised': repr(val) if how == 'exc' else ('swallowed by the throttler' if swallowed else None),
-             'conflict422': any(x.status == 422 for x in jsons)}
+             'conflict422': any(x.status == 422 for x in jsons), 'guarded': self.guarded()}
         self.cycles.append(c)
         return c
 
@@ -192,7 +223,7 @@ def monitors(ctx: fw.Ctx, desc: dict, w: World) -> None:
                      sig='carried-fn-duplicated')
             break
     # carried after a 422 -> applied exactly once by a later cycle once the faults stop; never lost while the object exists
-    carried = [k for c in w.cycles if c['conflict422'] for k in c['new']]
+    carried = [k for c in w.cycles if c['conflict422'] for k in c['new'] if k < ENSURE_BASE]     # the 'ensure' ones are judged below
     settled = [c for c in w.cycles if c['step'].get('settle')]
     if kept and final is not None and len(settled) == 2 and all(c['outcome'] in ('OApplied', 'ONoops') for c in settled):
         for k in carried:
@@ -203,6 +234,26 @@ def monitors(ctx: fw.Ctx, desc: dict, w: World) -> None:
                          {'fn': k, 'server_effects': final, 'carried_after_422': carried}, expected='exactly once', sig='carried-fn-lost')
                 break
         ctx.count('carry_monitor', 'carried-after-422-checked', len(carried))
+    # after the cycles settle, the effect of every transformation appended in a cycle that ended normally (accepted, nothing to
+    # do, or carried after a 422) holds on the server object exactly once
+    if kept and final is not None and len(settled) == 2 and all(c['outcome'] in ('OApplied', 'ONoops') for c in settled):
+        normal = [c for c in w.cycles if c['outcome'] in ('OApplied', 'ONoops') or c['outcome'].startswith('(OConflict')]
+        for c in normal:
+            for k in c['new']:
+                if k >= ENSURE_BASE:
+                    # the foreign writer removes the label only under a cycle which appends an 'ensure' transformation for it
+                    if not w.guarded():
+                        ctx.fail('an "ensure" transformation (a no-op on the body the operator knew) was appended, the state it ensures was '
+                                 'undone by a concurrent write (422), and after the cycles settled it still does not hold: the transformation '
+                                 'was not carried forward and re-evaluated against the fresh state', case,
+                                 {'fn': k, 'label_guard_present': False, 'server_effects': final}, expected='label guard=yes', sig='fn-effect-lost')
+                        return
+                elif final.count(k) != 1:
+                    ctx.fail('after the cycles settled the effect of an appended transformation is ' + ('missing' if final.count(k) == 0 else 'duplicated'),
+                             case, {'fn': k, 'server_effects': final}, expected='exactly once',
+                             sig='fn-effect-lost' if final.count(k) == 0 else 'fn-effect-duplicated')
+                    return
+        ctx.count('carry_monitor', 'appended-effects-checked', sum(len(c['new']) for c in normal))
     # observation (outside the quantifier: a 5xx): a fn appended in a cycle that dies of an exception is not carried
     if kept and final is not None:
         for c in w.cycles:
@@ -232,6 +283,15 @@ def descs_quick() -> list[dict]:
             out.append({'level': 'function', 'fn': 'carry', 'throttled': True,
                         'script': [{'env': 'conflict', 'new': 1, 'rush': False}, {'env': a, 'new': 1, 'rush': False},
                                    {'env': 'ok', 'new': 1, 'rush': b}, {'env': 'conflict', 'new': 0, 'rush': False}]})
+    # 'ensure' transformations: a no-op on the known body next to an effective one, the ensured state undone before the JSON-patch
+    tail = [{'env': e, 'new': n} for e in ('ok', 'conflict', 'e503j', 'e503m') for n in (0, 1)]
+    for prefix in ([], [{'env': 'ok', 'new': 1, 'ensure': True}], [{'env': 'conflict', 'new': 1, 'ensure': True}]):
+        for n in (0, 1, 2):
+            for combo in itertools.product(tail, repeat=n):
+                out.append({'level': 'function', 'fn': 'carry', 'throttled': False,
+                            'script': [dict(s) for s in prefix] + [{'env': 'undo', 'new': 1, 'ensure': True}] + [dict(s) for s in combo]})
+    out.append({'level': 'function', 'fn': 'carry', 'throttled': True,
+                'script': [{'env': 'undo', 'new': 1, 'ensure': True, 'rush': False}, {'env': 'e503j', 'new': 0, 'rush': False}, {'env': 'ok', 'new': 0, 'rush': True}]})
     return out
 
 
@@ -242,6 +302,11 @@ def descs_random(ctx: fw.Ctx, n: int) -> list[dict]:
         thr = r.random() < 0.4
         envs = ['ok', 'conflict', 'conflict', 'e503m', 'e503j', 'lost'] + ([] if thr else ['gone', 'deleted'])
         script = [{'env': r.choice(envs), 'new': r.choice([0, 0, 1, 2]), 'rush': thr and r.random() < 0.5} for _ in range(r.randrange(4, 9))]
+        for st in script:
+            if r.random() < 0.25:
+                st['ensure'] = True
+                if st['env'] in ('ok', 'conflict') and st['new'] and r.random() < 0.6:
+                    st['env'] = 'undo'
         out.append({'level': 'function', 'fn': 'carry', 'throttled': thr, 'script': script})
     return out
 
